@@ -15,6 +15,7 @@ import Nitime.Lemmas.C20Corr
 import Nitime.Lemmas.C20Real
 import Nitime.Lemmas.C20Entropy
 import Nitime.Lemmas.C20Lanes
+import Nitime.Lemmas.C20Spectrum
 
 namespace Nitime.C20.Props
 open Finset Nitime.Ev Nitime.C20
@@ -133,6 +134,20 @@ theorem zscore_mean_zero_var_one (x : List ℝ) (hσ : variance x ≠ 0) :
 theorem percent_change_mean_zero (x : List ℝ) (hμ : mean x ≠ 0) :
     mean (percentChange1 x) = 0 ∧ (percentChange1 x).length = x.length :=
   ⟨mean_percentChange x hμ, by simp [percentChange1]⟩
+
+/-- `correlation_spectrum` is a spectral decomposition of the correlation: with the cosine / sine
+tables the driver uses (`cos(2πj/n)`, `sin(2πj/n)`), the full un-normalised spectrum sums to the
+Pearson coefficient `seed_corrcoef`; the function returns its first `n//2+1` bins -/
+theorem corrspec_sums_to_pearson (a b : List ℝ) (hl : a.length = b.length) (hn : 0 < a.length) :
+    (∑ k ∈ range a.length,
+      nth (correlationSpectrumFull (fun j => Real.cos (2 * Real.pi * j / a.length))
+        (fun j => Real.sin (2 * Real.pi * j / a.length)) a b false) k) = seedCorrcoef1 b a ∧
+    ∀ (c s : ℕ → ℝ) (nm : Bool), correlationSpectrum c s a b nm
+      = (correlationSpectrumFull c s a b nm).take (a.length / 2 + 1) := by
+  refine ⟨?_, fun _ _ _ => rfl⟩
+  have h := corrspec_sum_eq_pearson a b hl hn (twiddle a.length) (twiddle_primitive hn.ne')
+    (twiddle_conj hn.ne')
+  simpa only [twiddle_pow_re, twiddle_pow_im] using h
 
 /-! ### information measures (ℝ instance; exact joint counts) -/
 section info
